@@ -1,21 +1,175 @@
 import MsPack.Driver.Core
+import MsPack.Chm.Extract
 /-
-Driver ops of the chm format — STUB: claims nothing, so every chm op prints `unsupported`.
+Driver ops of the chm format: new/open/fastopen/dump/fastfind/ffextract/extract/close/destroy.
+Prints what `/verif/harness` prints for the real library (harness/README.md "Decisions").
+A model fault ends an op with `<op> FAULT <fault>`; the harness shows the same event as a
+`CRASH` (sanitizer) or `TIMEOUT` (hang) line.
 -/
 namespace MsPack.Driver.Chm
-open MsPack MsPack.Driver
+open MsPack MsPack.Driver MsPack.Chm
 
 structure State where
-  insts : List Nat := []      -- instance numbers that are chm decompressors
+  insts   : List (Nat × Option Inst) := []          -- chm instances; none = destroyed
+  handles : List (Nat × Option Header) := []        -- chm handles; none = closed
 
-/-- `true` = op handled (result lines emitted) -/
-def handle (toks : List String) : HM State Bool := do
+abbrev M := HM State
+
+inductive Look (α : Type)
+  | ok (n : Nat) (a : α)
+  | bad
+  | dead
+
+def getInst (tok : String) : M (Look Inst) := do
+  match parseInst tok with
+  | some i => match (← getSt).insts.lookup i with
+    | some (some ci) => return .ok i ci
+    | some none => return .dead
+    | none => return .bad
+  | none => return .bad
+
+def ownsInst (tok : String) : M Bool := do
+  match parseInst tok with
+  | some i => return ((← getSt).insts.lookup i).isSome
+  | none => return false
+
+def setInst (i : Nat) (ci : Option Inst) : M Unit :=
+  modifySt fun s => { s with insts := (i, ci) :: s.insts.filter (·.1 ≠ i) }
+
+def getHandle (tok : String) : M (Look Header) := do
+  match parseHandle tok with
+  | some k => match (← getSt).handles.lookup k with
+    | some (some h) => return .ok k h
+    | some none => return .dead
+    | none => return .bad        -- never issued, or a handle of another format
+  | none => return .bad
+
+def setHandle (k : Nat) (h : Option Header) : M Unit :=
+  modifySt fun s => { s with handles := (k, h) :: s.handles.filter (·.1 ≠ k) }
+
+/-- `out_cstr` of a non-NULL C string -/
+def cstrHex (b : Bytes) : String := optHex (some (cString b))
+
+def dumpFiles (word : String) (fs : List CFile) : M Unit := do
+  for (f, j) in fs.zip (List.range fs.length) do
+    emit s!"{word} {j} name={cstrHex f.name} sec={f.sec} off={f.offset} len={f.length}"
+
+def dumpHeader (k : Nat) (h : Header) : M Unit := do
+  emit s!"chm h{k} len={h.length} ver={h.version} ts={h.timestamp} lang={h.language} diroff={h.dirOffset} nchunks={h.numChunks} chunksize={h.chunkSize} density={h.density} depth={h.depth} indexroot={h.indexRoot} firstpmgl={h.firstPmgl} lastpmgl={h.lastPmgl} sec0off={h.sec0Offset}"
+  dumpFiles "file" h.files
+  dumpFiles "sysfile" h.sysfiles
+
+/-- run `chmd_extract` on an entry and print ` written=W declared=D out=…` after `head`;
+    returns nothing, updates instance and header -/
+def doExtract (op : String) (i : Nat) (ci : Inst) (k : Nat) (h : Header)
+    (sec : Nat) (off len : Int) (outName : String) : M Unit := do
+  let sh ← getShared
+  match extract sh.files sh.fill ci k h sec off len with
+  | .fault f => emit s!"{op} FAULT {reprStr f}"
+  | .unsupported ci h =>
+    setInst i (some ci); setHandle k (some h); putFile outName []
+    emit s!"{op} unsupported"
+  | .done e ci h out =>
+    setInst i (some ci); setHandle k (some h)
+    match out with
+    | some w => putFile outName w
+    | none => pure ()
+    emit s!"{op} st={e.code} err={ci.error.code} written={(out.getD []).length} declared={len} out={← fileDigest outName}"
+
+def handle (toks : List String) : M Bool := do
   match toks with
   | ["new", "chm"] | ["new", "chm", "default"] =>
     let i ← freshInst
-    modifySt fun s => { s with insts := i :: s.insts }
+    modifySt fun s => { s with insts := (i, some {}) :: s.insts }
     emit s!"new chm i{i}"
     return true
+  | op :: itok :: rest =>
+    if !(← ownsInst itok) then return false
+    -- ops the harness knows but which are not defined for chm
+    if op ∈ ["param", "search", "append", "prepend", "decompress", "decompressinc"] then
+      emit s!"{op} unsupported"; return true
+    let arity : Option Nat := match op with
+      | "open" | "fastopen" => some 1 | "close" | "dump" => some 1 | "extract" => some 3
+      | "fastfind" => some 2 | "ffextract" => some 3 | "destroy" => some 0 | _ => none
+    match arity with
+    | none => emit s!"{op} unsupported"; return true
+    | some n =>
+    if rest.length ≠ n then emit s!"{op} bad-args"; return true
+    match ← getInst itok with
+    | .bad => emit s!"{op} bad-handle"; return true
+    | .dead => emit s!"{op} dead-handle"; return true
+    | .ok i ci =>
+    match op, rest with
+    | "destroy", [] =>
+      setInst i none; emit "destroy ok"; return true
+    | _, [name] =>
+      if op = "open" ∨ op = "fastopen" then
+        match ← lookupFile name with
+        | none => setInst i (some { ci with error := .open_ }); emit s!"{op} NULL st=2 err=2"
+        | some bytes =>
+          match realOpen name bytes (op = "open") with
+          | .error f => emit s!"{op} FAULT {reprStr f}"
+          | .ok (e, none) => setInst i (some { ci with error := e }); emit s!"{op} NULL st={e.code} err={e.code}"
+          | .ok (e, some h) =>
+            setInst i (some { ci with error := e })
+            let k ← freshHandle
+            setHandle k (some h)
+            emit s!"{op} h{k} st=0 err={e.code}"
+            dumpHeader k h
+        return true
+      else
+        match ← getHandle name with
+        | .bad => emit s!"{op} bad-handle"
+        | .dead => emit s!"{op} dead-handle"
+        | .ok k h =>
+          if op = "dump" then
+            emit s!"dump h{k}"; dumpHeader k h
+          else  -- close
+            setInst i (some (close ci k)); setHandle k none; emit "close ok"
+        return true
+    | _, hk :: args =>
+      match ← getHandle hk with
+      | .bad => emit s!"{op} bad-handle"; return true
+      | .dead => emit s!"{op} dead-handle"; return true
+      | .ok k h =>
+      match op, args with
+      | "extract", [idx, outName] =>
+        let (sys, s) := if idx.startsWith "s" then (true, (idx.drop 1).toString) else (false, idx)
+        match parseNat s with
+        | none => emit "extract bad-args"
+        | some j =>
+          match (if sys then h.sysfiles else h.files)[j]? with
+          | none => emit "extract bad-index"
+          | some f => doExtract "extract" i ci k h f.sec f.offset f.length outName
+        return true
+      | _, nameHex :: more =>
+        -- fastfind / ffextract
+        match parseHex nameHex with
+        | none => emit s!"{op} bad-args"; return true
+        | some name =>
+          let sh ← getShared
+          match fastFind (sh.files.lookup h.filename) ⟨ci.error, h⟩ name with
+          | .error f => emit s!"{op} FAULT {reprStr f}"
+          | .ok o =>
+            let ci := { ci with error := o.st.error }
+            let h := o.st.hdr
+            setInst i (some ci); setHandle k (some h)
+            let st := o.ret.code
+            let err := ci.error.code
+            if op = "fastfind" then
+              if st ≠ 0 then emit s!"fastfind st={st} err={err} sec=-1 off=0 len=0"
+              else
+                let sec := match o.res.sec with | some s => toString s | none => "-1"
+                emit s!"fastfind st={st} err={err} sec={sec} off={o.res.offset} len={o.res.length}"
+            else
+              match o.res.sec, more with
+              | some sec, [outName] =>
+                if st ≠ 0 then emit s!"ffextract st={st} err={err} notfound"
+                else doExtract "ffextract" i ci k h sec o.res.offset o.res.length outName
+              | _, _ => emit s!"ffextract st={st} err={err} notfound"
+          return true
+      | _, _ => emit s!"{op} bad-args"; return true
+    | _, _ => emit s!"{op} bad-args"; return true
   | _ => return false
 
 end MsPack.Driver.Chm
